@@ -20,6 +20,14 @@ round 3: `nsi_betweenness_split` (n.s.i. shortest-path betweenness, at the level
          remaining n.s.i. methods in the oracle; histories on live objects (cached values of
          the original must not change, weights re-assigned, cross measures first); Geo/Climate
          networks; caller arrays in several dtypes / layouts; hub and rescaled weights.
+round 5: `nsi_eigenvector_centrality_split` (Perron domination / uniqueness over any ordered
+         field; the vector the implementation returns goes through the exact model: `eig` /
+         `eigsplit` requests -- sparse product, exact residual, normalisation fixed point,
+         positivity, connectivity); `arenas_systems_regular` (maximum principle; the Arenas
+         theorems need no regularity hypothesis); the per-component wrapper of both random-walk
+         betweennesses in the model (`comp` / `compsplit` requests on every DISCONNECTED
+         undirected graph with 3..7(8) nodes: component lists, six argument patterns, copy-back)
+         with `nsi_newman_betweenness_wrapper_split` / `nsi_arenas_betweenness_wrapper_split`.
 """
 import contextlib
 import io
